@@ -183,13 +183,19 @@ class Solved(Sub):
     budget = {'quick': 64, 'thorough': 9600}
     shrink = {'quick': False, 'thorough': True}
 
+    OBSERVE = ['pair_correlation', 'pair_correlation', 'structure_factor', 'second_virial', 'solvation_potential', 'pmf', 'spinodal_condition']
+
     def strategy(self, tier):
-        return core_strategy(tier)
+        # 'observe': what is called on the solved object before g(r) is read (again): the solved object stays a solved object,
+        # so every g(r) it hands out -- the first, one after Fourier-space post-processing, a repeated one -- obeys the bound
+        return st.tuples(core_strategy(tier), st.lists(st.sampled_from(self.OBSERVE), max_size=4)).map(lambda t: dict(t[0], observe=t[1]))
 
     def check(self, spec):
         P = target()
         out = Outcome()
         sig = PID + '/solved/'
+        if spec.get('observe'):
+            out.label('g-read-after-' + str(len(spec['observe'])) + '-calls')
         hard = hard_pairs(spec)
         n = len(spec['types'])
         L = spec['domain']['length']
@@ -198,21 +204,32 @@ class Solved(Sub):
             if res is None or not res.success:
                 break
             judged += 1
-            g = S.quiet(P.calculate.pair_correlation, pr)
             y = np.asarray(res.fun, dtype=float).reshape((L, n, n))
             r = pr.sys.domain.r
             hmax = float(np.max(np.abs(pr.totalCorr.data)))
-            for kk, sigma in hard.items():
-                i, j = [int(v) for v in kk.split(',')]
-                ins = r <= sigma
-                gv = np.asarray(g[pr.sys.types[i], pr.sys.types[j]], dtype=float)
-                rt = 64 * EPS * L * (float(np.max(r)) * (hmax + 1.0)) / r
-                bound = (np.abs(y[:, i, j]) + 1e-12) / r + rt
-                bad = ins & (np.abs(gv) > bound)
-                if np.any(bad):
-                    m_ = int(np.flatnonzero(bad)[0])
-                    out.fail(sig + 'g-nonzero-inside-core', 'pair %s (%s, %s) at density scale %g: g(r=%.4g) = %.3g inside the core sigma=%.4g, bound |y|/r = %.3g' % (
-                        kk, spec['closure'][kk][0], spec['potential'][kk][0], scale, r[m_], float(gv[m_]), sigma, float(bound[m_])))
+            history = []
+            for step in list(spec.get('observe') or []) + ['pair_correlation']:
+                history.append(step)
+                if step != 'pair_correlation':
+                    try:
+                        S.quiet(getattr(P.calculate, step), pr)
+                    except Exception:   # noqa -- whether the other functions work is judged by C05 / C06
+                        history[-1] += '(raised)'
+                    continue
+                g = S.quiet(P.calculate.pair_correlation, pr)
+                for kk, sigma in hard.items():
+                    i, j = [int(v) for v in kk.split(',')]
+                    ins = r <= sigma
+                    gv = np.asarray(g[pr.sys.types[i], pr.sys.types[j]], dtype=float)
+                    rt = 64 * EPS * L * (float(np.max(r)) * (hmax + 1.0)) / r
+                    bound = (np.abs(y[:, i, j]) + 1e-12) / r + rt
+                    bad = ins & ~(np.abs(gv) <= bound)
+                    if np.any(bad):
+                        m_ = int(np.flatnonzero(bad)[0])
+                        out.fail(sig + 'g-nonzero-inside-core', 'pair %s (%s, %s) at density scale %g: g(r=%.4g) = %.3g inside the core sigma=%.4g, bound |y|/r = %.3g (calls on the solved object: %s)' % (
+                            kk, spec['closure'][kk][0], spec['potential'][kk][0], scale, r[m_], float(gv[m_]), sigma, float(bound[m_]), history))
+                        break
+                if out.violations:
                     break
             if out.violations:
                 break
